@@ -57,7 +57,7 @@ def plan(tier):
 def histories(draw):
     ops, G = gen.gen_model_ops(draw, FEAT)
     for _ in range(draw(st.integers(8, 24))):
-        k = draw(st.integers(0, 14))
+        k = draw(st.integers(0, 15))
         sids = gen.all_ctx_ids(G) + gen.item_sids(G, 2)
         if not sids:
             break
@@ -133,6 +133,28 @@ def histories(draw):
                 ops.append(["set_ref_raw_obj", list(s_.path), "bad0", list(o.path), "relative"])
                 ops.append(["capture", sid, None])          # (re-creation is attempted and fails)
                 ops.append(["set_ref", [], "zz_pad", ["v", draw(st.integers(0, 9))], None])
+        elif k == 15:
+            # several instances of one space are built on ANOTHER space (the parameter formula names it as base);
+            # handles to all of them are taken, then that other space is deleted: every one of them goes
+            tops = [t for t in G.spaces.values() if not G.subs(t)]
+            if len(tops) >= 2:
+                d = draw(st.sampled_from(sorted(tops, key=lambda t: (len(t.children), t.path))[:2]))
+                ps = [t for t in G.all_spaces() if t.path[0] != d.path[0]]
+                if ps:
+                    pp = draw(st.sampled_from(ps))
+                    op = ["set_formula", list(pp.path), {"params": [["p", None]], "form": "lambda",
+                                                         "ret": {"base": ["attr", ["name", "_model"], d.name], "refs": None}}]
+                    if gen.apply_edit_to_picture(G, op, allow_dangling=True):
+                        ops.append(op)
+                        names = G.cells_names(d)[:1]
+                        for a in draw(st.permutations([0, 1, 2])):
+                            sid = gen._jsid(pp.path + ((a,),))
+                            ops.append(["capture", sid, None])
+                            for n in names:
+                                ops.append(["capture", sid, n])
+                        op = ["del_space", list(d.path)]
+                        if gen.apply_edit_to_picture(G, op, allow_dangling=True):
+                            ops.append(op)
         elif k == 6:
             items = gen.item_sids(G, 2)
             if items:
